@@ -18,6 +18,8 @@
    exactly 0) is lost when rounding makes the discriminant slightly positive — the recorded finding `repeated-root` —
    and the tolerance 1e-10 of the zero tests drops a root when a leading coefficient is tiny. These theorems use the
    standard library's classical real-number axioms (sig_forall_dec, sig_not_dec, functional_extensionality_dep, classic).
+   The containment test (curveIntersects, curveContained) in exact real arithmetic is modelled and characterised at the end of this
+   file (Proofs/CurveReal*.v): what it accepts, exactly; that with zero tolerances acceptance implies containment in a rectangle.
    Not proved: that the fitted curves stay inside the corridor up to the tolerance (Schneider fit, Bernstein evaluation
    and the containment test on float64). This is SEARCHED on the implementation: pieces sampled densely against the
    corridor enlarged by 0.05 on random, staircase and zigzag corridors; the containment test on synthetic cubics;
@@ -68,3 +70,73 @@ Print Assumptions C20_root_finder_exact.
 Theorem C20_repeated_root_exact : RootsReal.solve3 [-2; -3; 0; 1]%R = Some [2; -1; -1]%R.
 Proof. exact RootsReal.ex_double_values. Qed.
 Print Assumptions C20_repeated_root_exact.
+
+(* ---------- the fitter's containment test, curveIntersects / curveContained of spline_fit.go, IN EXACT REAL ARITHMETIC, statement by
+   statement over the exact root finder above (Proofs/CurveReal*.v; tolerances epsilon1, epsilon2 as parameters). What the test decides,
+   exactly: it accepts a piece iff every point where the piece meets a barrier it does not run along is "ignored" — at a parameter
+   within epsilon2 of an end of the piece, or within sqrt(epsilon1) of an end point of the barrier. With both tolerances 0 this is
+   "the piece meets no barrier", and for a rectangle that implies containment (intermediate value theorem). With the code's
+   tolerances the ignored zones are exactly the recorded finding `vertex-crossing`; a barrier the piece runs ALONG is skipped for
+   every tolerance (the zero polynomial: solve3 answers nil). An answer "not contained" always has a genuine witness. ---------- *)
+From Coq Require Import Reals.
+From Autog Require Import CurveReal CurveReal2 CurveReal3.
+Local Open Scope R_scope.
+
+Theorem C20_power_basis_is_the_curve : forall bz t,
+  RootsReal.poly3 (xcoeff bz) t = px (curvep bz t) /\ RootsReal.poly3 (ycoeff bz) t = py (curvep bz t).
+Proof. intros bz t. split; [apply xcoeff_correct | apply ycoeff_correct]. Qed.
+Print Assumptions C20_power_basis_is_the_curve.
+
+Theorem C20_intersections_exact : forall bz seg t, ~ curve_along bz seg ->
+  (In t (curve_intersects bz seg) <-> 0 <= t <= 1 /\ on_seg (curvep bz t) seg).
+Proof. exact curve_intersects_spec. Qed.
+Print Assumptions C20_intersections_exact.
+
+Theorem C20_containment_test_decides : forall eps1 eps2 bz bs,
+  curve_contained eps1 eps2 bz bs = true <->
+  forall b, In b bs -> ~ curve_along bz b ->
+    forall t, 0 <= t <= 1 -> on_seg (curvep bz t) b -> ignored eps1 eps2 bz b t.
+Proof. exact curve_contained_spec. Qed.
+Print Assumptions C20_containment_test_decides.
+
+Theorem C20_containment_test_exact : forall bz bs,
+  curve_contained 0 0 bz bs = true <->
+  forall b, In b bs -> ~ curve_along bz b -> forall t, 0 <= t <= 1 -> ~ on_seg (curvep bz t) b.
+Proof. exact curve_contained_exact. Qed.
+Print Assumptions C20_containment_test_exact.
+
+Theorem C20_rejection_has_a_witness : forall eps1 eps2 bz bs, curve_contained eps1 eps2 bz bs = false ->
+  exists b t, In b bs /\ 0 <= t <= 1 /\ on_seg (curvep bz t) b /\ ~ ignored eps1 eps2 bz b t.
+Proof. exact curve_contained_false_witness. Qed.
+Print Assumptions C20_rejection_has_a_witness.
+
+(* exact tolerances, one rectangle: accepted and starting strictly inside => the whole piece strictly inside *)
+Theorem C20_exact_test_implies_containment_in_a_rectangle : forall bz x0 y0 x1 y1, x0 < x1 -> y0 < y1 ->
+  curve_contained 0 0 bz (rect_sides x0 y0 x1 y1) = true -> strictly_inside x0 y0 x1 y1 (curvep bz 0) ->
+  forall t, 0 <= t <= 1 -> strictly_inside x0 y0 x1 y1 (curvep bz t).
+Proof. exact rect_contained_exact_sound. Qed.
+Print Assumptions C20_exact_test_implies_containment_in_a_rectangle.
+
+(* any tolerances: a piece that starts strictly inside and is accepted can leave the rectangle only through an ignored zone *)
+Theorem C20_accepted_piece_leaves_only_through_an_ignored_zone : forall eps1 eps2 bz x0 y0 x1 y1 t1, x0 < x1 -> y0 < y1 ->
+  curve_contained eps1 eps2 bz (rect_sides x0 y0 x1 y1) = true -> strictly_inside x0 y0 x1 y1 (curvep bz 0) ->
+  0 <= t1 <= 1 -> ~ strictly_inside x0 y0 x1 y1 (curvep bz t1) ->
+  exists z b, 0 <= z <= t1 /\ In b (rect_sides x0 y0 x1 y1) /\ on_seg (curvep bz z) b /\ ignored eps1 eps2 bz b z.
+Proof. exact rect_exit_is_ignored. Qed.
+Print Assumptions C20_accepted_piece_leaves_only_through_an_ignored_zone.
+
+(* the code's tolerances: the recorded finding `vertex-crossing`, exactly *)
+Theorem C20_vertex_crossing_exactly : forall bz bs,
+  curve_contained epsilon1 epsilon2 bz bs = true <->
+  forall b, In b bs -> ~ curve_along bz b -> forall t, 0 <= t <= 1 -> on_seg (curvep bz t) b -> in_zone bz b t.
+Proof. exact curve_contained_real_zones. Qed.
+Print Assumptions C20_vertex_crossing_exactly.
+
+(* witnesses: a transversal crossing 0.01 from a barrier's end is accepted with the code's tolerances; a piece lying on a barrier
+   is accepted with every tolerance; a crossing at parameter 5e-8 is accepted wherever it is *)
+Example C20_refuted_vertex_crossing : curve_contained epsilon1 epsilon2 hline [bseg] = true.
+Proof. exact ex_vertex_accepted. Qed.
+Example C20_refuted_along_a_barrier : forall eps1 eps2, curve_contained eps1 eps2 vline [vseg] = true.
+Proof. exact ex_along_contained. Qed.
+Example C20_refuted_crossing_at_the_start : curve_contained epsilon1 epsilon2 sline [bseg] = true.
+Proof. exact ex_start_accepted. Qed.
